@@ -2,6 +2,7 @@ package main
 
 import (
 	"fmt"
+	"sort"
 	"strings"
 
 	"verif/mc"
@@ -175,6 +176,14 @@ func c01Scenarios(tier string) []*Scenario {
 				out = append(out, &sc2)
 			}
 		}
+		// two goroutines of one handler receive from the same stream (a worker pool draining the requests): each
+		// request reaches exactly one of them, intact
+		for _, rpc := range []RPC{
+			{Kind: "bd", Client: []string{"S0", "S1", "C", "R*"}, Handler: []string{"go", "r", "join", "s0", "ret:ok"}, Handler2: []string{"r"}},
+			{Kind: "cs", Client: []string{"S0", "S1", "S2", "C", "R*"}, Handler: []string{"go", "r", "r", "join", "s0", "ret:ok"}, Handler2: []string{"r"}},
+		} {
+			out = append(out, &Scenario{Prop: "C01", Name: "two-receivers|" + rpcName(rpc), Transport: tr, RPCs: []RPC{rpc}, Bound: -1})
+		}
 		// two RPCs at once with the decoder as a scheduling point: whatever the library recycles between calls
 		// (buffers, pooled objects) must not be handed on while a receiver is still decoding from it
 		{
@@ -207,6 +216,9 @@ func c01Oracle(sc *Scenario, rec *Rec, s *mc.Sched) []mc.Violation {
 			out = append(out, mc.Violation{Clause: clause, Obs: fmt.Sprintf("rpc%d: %s", i, obs), Detail: rr})
 		}
 		for _, m := range rr.Monitor {
+			if strings.HasPrefix(m, "prefix:handler") && strings.HasPrefix(sc.Name, "two-receivers|") {
+				continue // the order in which two receiving goroutines note what they got is not the order of receipt
+			}
 			if strings.HasPrefix(m, "prefix:") || strings.HasPrefix(m, "merge:") || strings.HasPrefix(m, "late-write:") {
 				add(m[:strings.Index(m, ":")], m[strings.Index(m, ":")+1:])
 			}
@@ -229,7 +241,15 @@ func c01Oracle(sc *Scenario, rec *Rec, s *mc.Sched) []mc.Violation {
 				sent = append(sent, t)
 			}
 		}
-		if rr.HandlerDone && rr.HandlerRet == "nil" && !eqStrs(rr.SrvRecv, sent) {
+		if strings.HasPrefix(sc.Name, "two-receivers|") {
+			// which goroutine got which request is not fixed: compare as multisets
+			a, b := append([]string(nil), rr.SrvRecv...), append([]string(nil), sent...)
+			sort.Strings(a)
+			sort.Strings(b)
+			if rr.HandlerDone && rr.HandlerRet == "nil" && !eqStrs(a, b) {
+				add("handler-sequence", fmt.Sprintf("the handler's goroutines received %v, client sent %v", a, b))
+			}
+		} else if rr.HandlerDone && rr.HandlerRet == "nil" && !eqStrs(rr.SrvRecv, sent) {
 			add("handler-sequence", fmt.Sprintf("handler received %v, client sent %v", rr.SrvRecv, sent))
 		}
 	}
